@@ -10,7 +10,11 @@ import (
 	abci "github.com/cometbft/cometbft/abci/types"
 	sdk "github.com/cosmos/cosmos-sdk/types"
 
+	authtypes "github.com/cosmos/cosmos-sdk/x/auth/types"
+	govtypes "github.com/cosmos/cosmos-sdk/x/gov/types"
+
 	avstypes "github.com/ExocoreNetwork/exocore/x/avs/types"
+	dogfoodtypes "github.com/ExocoreNetwork/exocore/x/dogfood/types"
 	operatortypes "github.com/ExocoreNetwork/exocore/x/operator/types"
 
 	"verif/sim"
@@ -47,6 +51,9 @@ func BuildLedgerWorld(seed int64, idx int, o LedgerOpts) (*World, error) {
 		default:
 			stakes[i] = int64(50 + r.Intn(500))
 		}
+	}
+	if stakes[0] < o.MinSelf+10 {
+		stakes[0] = o.MinSelf + 10 + int64(r.Intn(100)) // the protected validator stays eligible
 	}
 	cfg := sim.DefaultConfig(o.NOps, stakes)
 	if o.Unbond > 0 {
@@ -300,6 +307,29 @@ func (w *World) RunLedger(o LedgerOpts) {
 		}
 	}
 	slashN := 0
+	wPrice, wAvsOpt, wParam := 0, 0, 0
+	if o.Profile == "queues" {
+		wParam = 20
+	}
+	var extraAVS []string
+	if o.Profile == "power" {
+		wPrice, wAvsOpt = 45, 45
+		ids := []string{"minute", "hour", "minute"}
+		for i := 0; i < 1+r.Intn(2); i++ {
+			owner := w.C.Gen.Cfg.Accounts[4+i]
+			var assets []string
+			for _, a := range w.Assets {
+				if r.Intn(2) == 0 || len(assets) == 0 {
+					assets = append(assets, a.ID)
+				}
+			}
+			spec := AVSSpec{Owner: owner, Name: fmt.Sprintf("avs%d", i), Assets: assets, MinSelf: []uint64{0, 0, 1, 50, 1000}[r.Intn(5)],
+				EpochID: ids[r.Intn(len(ids))], Unbonding: uint64(1 + r.Intn(3)), TaskAddr: sim.NewAccount(fmt.Sprintf("task%d", i)).Eth}
+			if st := w.RegisterAVS(spec); st.Ack {
+				extraAVS = append(extraAVS, owner.Eth.String())
+			}
+		}
+	}
 	wSlash, wUndel, wKeys, wOpt, wEvid := 45, 170, 30, 25, 8
 	switch o.Profile {
 	case "slash":
@@ -308,6 +338,8 @@ func (w *World) RunLedger(o LedgerOpts) {
 		wUndel, wOpt = 230, 40
 	case "keys":
 		wKeys, wOpt, wEvid = 110, 60, 20
+	case "queues":
+		wKeys, wOpt, wUndel = 80, 60, 220
 	}
 	for len(w.Steps) < o.Steps && !w.Dead {
 		x := r.Intn(1000)
@@ -394,7 +426,7 @@ func (w *World) RunLedger(o LedgerOpts) {
 			}
 		case wt(25): // dissociate
 			s := w.pickStaker([]uint64{101, 1616}[r.Intn(2)], false)
-			if s != nil {
+			if s != nil && s != w.Stakers[0] { // the protected validator keeps its self-delegation
 				w.Dissociate(s)
 			}
 		case wt(25): // register an extra operator
@@ -418,7 +450,11 @@ func (w *World) RunLedger(o LedgerOpts) {
 		case wt(wKeys): // replace key
 			op := w.pickOper(true)
 			var key *sim.ConsKey
-			switch r.Intn(6) {
+			choice := r.Intn(6)
+			if op == w.Opers[0] {
+				choice = 5 // the protected validator only uses fresh keys (a recycled key carries x/slashing history)
+			}
+			switch choice {
 			case 0:
 				if len(op.Keys) > 0 { // back to an earlier key of its own
 					key = op.Keys[r.Intn(len(op.Keys))]
@@ -463,6 +499,50 @@ func (w *World) RunLedger(o LedgerOpts) {
 				d = w.amount(row.TotalDepositAmount.Add(row.TotalDepositAmount.QuoRaw(2)), false).Neg()
 			}
 			w.NSTUpdateStep(s, nst, d)
+		case wt(wParam): // governance changes the number of unbonding epochs
+			p := w.Last.Dog.Params
+			p.EpochsUntilUnbonded = uint32(1 + r.Intn(4))
+			st := w.GovStep("dogfood_params", &dogfoodtypes.MsgUpdateParams{Authority: authtypes.NewModuleAddress(govtypes.ModuleName).String(), Params: p})
+			st.P["unbond"] = fmt.Sprint(p.EpochsUntilUnbonded)
+		case wt(wPrice): // move a price (non-NST tokens)
+			var toks []int
+			for i, a := range w.C.Gen.Cfg.Assets {
+				if a.HasOracle && !a.NST {
+					toks = append(toks, i)
+				}
+			}
+			if len(toks) == 0 {
+				continue
+			}
+			ai := toks[r.Intn(len(toks))]
+			tid := uint64(0)
+			n := uint64(0)
+			for i, a := range w.C.Gen.Cfg.Assets {
+				if a.HasOracle {
+					n++
+				}
+				if i == ai {
+					tid = n
+				}
+			}
+			dec := int32(r.Intn(9))
+			price := sdkmath.NewIntFromBigInt(randBig(r, 1+r.Intn(40))).String()
+			if r.Intn(10) == 0 {
+				price = "1"
+			}
+			w.PriceStep(tid, price, dec)
+		case wt(wAvsOpt): // opt in / out of an extra AVS (no key)
+			if len(extraAVS) == 0 {
+				continue
+			}
+			avs := extraAVS[r.Intn(len(extraAVS))]
+			op := w.pickOper(true)
+			w.fund(op.Acct)
+			if r.Intn(4) == 0 {
+				w.OptOut(op, avs)
+			} else {
+				w.OptIn(op, avs, nil)
+			}
 		case wt(10): // toggle absence of a validator (downtime path)
 			if vs := w.C.ValSet.Validators; len(vs) > 1 {
 				v := vs[r.Intn(len(vs))]
